@@ -179,6 +179,10 @@ def gen(rng, tier, i):
         if r < 0.15: steps.append('fsopt %d -1' % rng.choice((1, 2)))
         elif r < 0.25: steps.append('fsopt -1 %d' % rng.randint(0, 6))
         elif r < 0.33: steps.append(fault(rng.randint(0, 40), 'error'))
+        # the value stack is nearly used up when the compilation starts: the arguments the compiler pushes for the master
+        # (log_error, valid_override) do not fit, and the error leaves the compiler from the middle of a parse
+        elif r < 0.39: steps.append(fault(rng.randint(0, 60), 'stackroom:%d' % rng.choice((0, 1, 2, 3, 4, 6))))
+        elif r < 0.47: steps.append(fault(rng.choice((0, 0, 0, 1)), 'compileroom:%d' % rng.choice((0, 1, 2, 3, 4, 6))))
         steps.append(send(0, 'do comp %d %s\r\n' % (k, target)))
         p.cycle(*steps)
         p.cycle('fsopt 0 -1', 'fault -1 error', send(0, 'do comp p%d /probe\r\n' % (k + 1)))
